@@ -345,6 +345,12 @@ def tie_part(run, r, model, sim, cases, d):
             run.violation("harness:incomplete", "scenario %d did not run to completion under %s (rc=%d/%d): %s" % (
                 c["id"], c["smp"] if ls is None else "serial", rc1, rc2, (e1 if ls is None else e2)[-300:]), rep)
             continue
+        cb = [l for l in ls if l.startswith("CBVIOL")]
+        if cb:
+            run.violation("callback:off-main-thread",
+                          "a script callback of the engine's single interpreter was entered off the main thread or inside a parallel loop under schedule %s: %s; config:\n%s" % (
+                              c["smp"], cb[0], "\n".join(tcase_config(c))), rep)
+            continue
         cfg, isteps = parse_steps(ls)
         cfg2, ssteps = parse_steps(lser)
         if not cfg or any("err=ok" not in l for l in cfg):
@@ -459,7 +465,7 @@ def gen_rcase(r, k):
     vars_ = []
     scalar = []
     for v in range(nv):
-        kind = r.choice(["distance", "distance2c", "angle", "dihedral", "gyration", "coordnum", "rmsd", "dist3c", "distancevec", "distz", "extended", "extended2c"])
+        kind = r.choice(["distance", "distance2c", "angle", "dihedral", "gyration", "coordnum", "rmsd", "dist3c", "distancevec", "distz", "extended", "extended2c", "scriptsum", "scriptdbl", "scriptsum"])
         a = r.sample(atoms, 8)
         L = ["colvar {", "  name v%d" % v, "  width 0.5"]
         is_scalar = True
@@ -493,6 +499,12 @@ def gen_rcase(r, k):
         elif kind == "extended":
             L[2:2] = ["  extendedLagrangian on", "  extendedFluctuation 0.25", "  extendedTimeConstant 20.0"]
             L += ["  distance {", "    group1 { %s }" % grp(a[:1]), "    group2 { %s }" % grp(a[1:2]), "  }"]
+        elif kind in ("scriptsum", "scriptdbl"):
+            # scripted variables: the engine's ONE script interpreter combines the components (serial collection, main thread)
+            ncomp = 2
+            L[2:2] = ["  scriptedFunction %s" % ("vsum" if kind == "scriptsum" else "vdbl")]
+            for i in range(2):
+                L += ["  distance {", "    name d%d" % i, "    group1 { %s }" % grp(a[2 * i:2 * i + 1]), "    group2 { %s }" % grp(a[2 * i + 1:2 * i + 2]), "  }"]
         elif kind == "extended2c":
             ncomp = 2
             L[2:2] = ["  extendedLagrangian on", "  extendedFluctuation 0.25", "  extendedTimeConstant 20.0", "  outputVelocity on"]
@@ -678,6 +690,13 @@ def rich_part(run, r, sim, cases, d, env=None):
             continue
         key = json.dumps(rcase_config(c))
         run.count(key, nontrivial=len(c["biases"]) >= 2 or any(x["ncomp"] >= 2 for x in c["vars"]))
+        cb = [l for l in o1 if l.startswith("CBVIOL")]
+        if cb:
+            run.violation("callback:off-main-thread",
+                          "a script callback of the engine's single interpreter was entered off the main thread or inside a parallel loop under schedule %s (threads %s): %s "
+                          "(the mechanism is: parallel component loop, then SERIAL collection on the main thread); config:\n%s" % (
+                              c["smp"], c["steps"][0]["nt"], cb[0], "\n".join(rcase_config(c))), rep)
+            continue
         if any(x["kind"] == "metarep" for x in c["biases"]):
             run.dist("R:replica-sharing bias (bias loop must stay on the main thread)")
             if any(l.startswith("BITEMS") for l in o1):
@@ -763,6 +782,37 @@ def gen_pair_case(r, k, kind):
                       "perm": perm, "nt": nt, "assign": []})
     return {"id": 5000 + k, "natoms": natoms, "restartfreq": 0, "collect_gradient": None, "vars": vars_, "biases": biases, "use_script": False, "script": [],
             "steps": steps, "smp": "perm", "binary": False, "pair_kind": kind}
+
+
+def gen_script_case(r, k):
+    """a plain variable followed by two or three scripted ones (vsum / vdbl), restraints on all: under any schedule the script
+    callbacks must be entered on the main thread, outside the parallel loops, and the values must be those of the serial run"""
+    c = gen_pair_case(r, k, "linear")
+    natoms = 12
+    pos = [[V.dyadic(r, -1, 1, bits=4) + 2.0 * (a % 4), V.dyadic(r, -1, 1, bits=4) + 1.5 * (a // 4), V.dyadic(r, -1, 1, bits=4)] for a in range(natoms)]
+    vars_, biases = [], []
+    nv = r.choice([3, 4])
+    for v in range(nv):
+        a = r.sample(range(1, natoms + 1), 4)
+        L = ["colvar {", "  name v%d" % v, "  width 0.5"]
+        if v > 0:
+            L += ["  scriptedFunction %s" % ("vdbl" if v % 2 else "vsum")]
+        for i in range(2 if v > 0 else 1):
+            L += ["  distance {", "    name d%d" % i, "    group1 { atomNumbers %d }" % a[2 * i], "    group2 { atomNumbers %d }" % a[2 * i + 1], "  }"]
+        L += ["}"]
+        vars_.append({"kind": "scriptdbl" if (v > 0 and v % 2) else ("scriptsum" if v > 0 else "distance"), "lines": L, "scalar": True, "ncomp": 2 if v > 0 else 1, "tsf": 1})
+        biases.append({"kind": "harmonic", "lines": ["harmonic {", "  name b%d" % v, "  colvars v%d" % v, "  centers %r" % V.dyadic(r, 1, 4, bits=2), "  forceConstant %r" % V.dyadic(r, 1, 3, bits=2), "}"]})
+    steps = []
+    p = [list(q) for q in pos]
+    for t in range(5):
+        for q in p:
+            for j in range(3):
+                q[j] += V.dyadic(r, -0.5, 0.5, bits=6)
+        perm = list(range(NPERM))
+        r.shuffle(perm)
+        steps.append({"pos": [list(q) for q in p], "eforce": [[0.0, 0.0, 0.0] for _ in range(natoms)], "flags": [], "perm": perm, "nt": r.choice([2, 3, 4]), "assign": []})
+    c.update({"id": 7000 + k, "natoms": natoms, "vars": vars_, "biases": biases, "steps": steps, "smp": "perm" if k % 2 == 0 else "omp", "pair_kind": "scripted"})
+    return c
 
 
 def order_differential(run, sim, cases, d):
@@ -1639,6 +1689,10 @@ def check(run):
     for c in pairs:
         run.dist("P:pair " + c["pair_kind"])
     rich_part(run, r, sim, pairs, d)
+    # several scripted variables (single script interpreter of the engine): callbacks on the main thread only, values as in the serial run
+    scases = [gen_script_case(r, k) for k in range(4 if quick else 40)]
+    run.dist("S:scripted-variable scenarios", len(scases))
+    rich_part(run, r, sim, scases, d)
     order_differential(run, sim, pairs + rc[:4 if quick else 40], d)
     # the library's own OpenMP modes x thread counts: every component kind once (round robin), then random mixtures
     lc = [gen_lcase(r, k, kinds=[sorted(set(LKINDS))[k % len(set(LKINDS))]]) for k in range(len(set(LKINDS)))]
